@@ -7,6 +7,7 @@
 import VotelibProofs.Lemmas.ShapeDefs
 import VotelibProofs.Props.C05
 import VotelibProofs.Props.C06
+import Mathlib.Data.List.Perm.Subperm
 namespace VL.C08
 open VL VL.Condorcet
 
@@ -374,5 +375,302 @@ example : 1 ≤ 2 ∧ 2 ≤ (candidates C05.exCW).length ∧
 example : 1 ≤ 1 ∧ 1 ≤ (candidates C05.exTwoChains).length ∧
     rankedPairs .winningVotes C05.exTwoChains 1 = .error .votingSystemError := by decide +kernel
 example : rankedPairs .winningVotes [] 1 = .error (.other "StopIteration") := by decide +kernel
+
+/-! ### the seat-less set selectors (`condorcetWinner`, `smithSet`, `schwartzSet`; driver C06 ops `cw`, `smith`, `schwartz`) -/
+
+theorem keys_beatFold_sub (wins : List Pair) : ∀ (d : Votes) (c : Cand),
+    c ∈ keys (wins.foldl (fun d w => incr d w.1 1) d) → c ∈ keys d ∨ c ∈ wins.map (·.1) := by
+  induction wins with
+  | nil => intro d c h; exact Or.inl h
+  | cons w ws ih =>
+    intro d c h
+    rw [List.foldl_cons] at h
+    rcases ih _ c h with h' | h'
+    · rw [keys_incr] at h'
+      split at h'
+      · exact Or.inl h'
+      · rcases List.mem_append.1 h' with h'' | h''
+        · exact Or.inl h''
+        · simp only [List.mem_singleton] at h''; subst h''; exact Or.inr (by simp)
+    · exact Or.inr (List.mem_cons_of_mem _ h')
+
+theorem pairwiseWins_fst_mem {v : Pairwise} {t : Bool} {c : Cand} (h : c ∈ (pairwiseWins v t).map (·.1)) :
+    c ∈ candidates v := by
+  obtain ⟨w, hw, rfl⟩ := List.mem_map.1 h
+  unfold pairwiseWins at hw
+  obtain ⟨e, he, rfl⟩ := List.mem_map.1 hw
+  exact fst_mem_candidates (List.mem_filter.1 he).1
+
+theorem condorcetWinner_mem_candidates {v : Pairwise} {c : Cand} (h : c ∈ condorcetWinner v) : c ∈ candidates v := by
+  unfold condorcetWinner at h
+  simp only at h
+  split at h
+  · rename_i p hp
+    simp only [List.mem_singleton] at h
+    subst h
+    have hk : p.1 ∈ keys (beatCounts v) := List.mem_map.2 ⟨p, List.mem_of_find?_eq_some hp, rfl⟩
+    unfold beatCounts at hk
+    rcases keys_beatFold_sub _ _ _ hk with h' | h'
+    · simp [keys] at h'
+    · exact pairwiseWins_fst_mem h'
+  · simp at h
+
+/-- **The set selectors return distinct candidates of the votes** (they take no seat count: a selector result is a
+    set, possibly empty; CondorcetWinner has at most one member).  For every dictionary. -/
+theorem seatless_shape (v : Pairwise) :
+    ((condorcetWinner v).Nodup ∧ (∀ c ∈ condorcetWinner v, c ∈ candidates v) ∧ (condorcetWinner v).length ≤ 1) ∧
+    ((smithSet v).Nodup ∧ ∀ c ∈ smithSet v, c ∈ candidates v) ∧
+    ((schwartzSet v).Nodup ∧ ∀ c ∈ schwartzSet v, c ∈ candidates v) := by
+  refine ⟨⟨?_, fun c hc => condorcetWinner_mem_candidates hc, ?_⟩,
+    ⟨nodup_smithSchwartz v true, fun c hc => smithSchwartz_sub_candidates hc⟩,
+    ⟨nodup_smithSchwartz v false, fun c hc => smithSchwartz_sub_candidates hc⟩⟩
+  · rcases condorcetWinner_shape v with h | ⟨c, h⟩ <;> rw [h] <;> simp
+  · rcases condorcetWinner_shape v with h | ⟨c, h⟩ <;> rw [h] <;> simp
+
+/-- the selectors are total functions of the dictionary: they never refuse (the models return plain lists); and on
+    well-formed votes with a candidate the Smith set is non-empty -/
+theorem seatless_smith_nonempty {v : Pairwise} (hwf : WF v) (hne : 1 ≤ (candidates v).length) : smithSet v ≠ [] := by
+  obtain ⟨c, hc⟩ := (C06.smith_is_least_dominating hwf).2.1 (by
+    intro h; rw [h] at hne; simp at hne)
+  exact List.ne_nil_of_mem hc
+
+example : WF C06.exTied ∧ 1 ≤ (candidates C06.exTied).length := by decide +kernel
+
+/-! ### Benham and Tideman alternative (`benham p`, `tideman smith p`; driver C05 ops `benham`, `tideman`), one seat -/
+
+theorem nodup_allRanked (p : Profile) : (allRankedCandidates p).Nodup := nodup_uniq _
+
+theorem allRanked_nil : allRankedCandidates ([] : Profile) = [] := rfl
+
+theorem length_le_of_nodup_subset {l₁ l₂ : List Cand} (hnd : l₁.Nodup) (hsub : ∀ c ∈ l₁, c ∈ l₂) :
+    l₁.length ≤ l₂.length := (List.Nodup.subperm hnd hsub).length_le
+
+theorem length_allRanked_subset_le (p : Profile) (S : List Cand) :
+    (allRankedCandidates (subsetProfile p S)).length ≤ S.length :=
+  length_le_of_nodup_subset (nodup_allRanked _) (fun _ hc => (allRanked_subsetProfile hc).1)
+
+theorem length_allRanked_subsetProfile_le (p : Profile) (S : List Cand) :
+    (allRankedCandidates (subsetProfile p S)).length ≤ (allRankedCandidates p).length :=
+  length_le_of_nodup_subset (nodup_allRanked _) (fun _ hc => (allRanked_subsetProfile hc).2)
+
+theorem length_slotCands_le (l : List Slot) : (slotCands l).length ≤ l.length := List.length_filterMap_le _ _
+
+theorem eliminateOne_error {p : Profile} {e : Err} (h : eliminateOne p = .error e) : e = .other "IndexError" := by
+  unfold eliminateOne at h
+  simp only at h
+  split at h
+  · simp only [Except.error.injEq] at h; exact h.symm
+  · simp at h
+  · simp at h
+
+/-- `eliminate_one` keeps one place fewer than there are candidates, in the selection shape -/
+theorem eliminateOne_ok {p : Profile} {rem : List Slot} (h : eliminateOne p = .ok rem) :
+    rem.length + 1 = (allRankedCandidates p).length ∧
+      (1 ≤ rem.length → SelShape (allRankedCandidates p) rem.length rem) := by
+  have hk := keys_firstPrefTotals p
+  have hlen : (firstPrefTotals p).length = (allRankedCandidates p).length := by
+    rw [← hk]; simp [keys]
+  unfold eliminateOne at h
+  simp only at h
+  split at h
+  · simp at h
+  · rename_i h1
+    simp only [Except.ok.injEq] at h; subst h
+    rw [← hlen, h1]
+    exact ⟨rfl, fun h => absurd h (by simp)⟩
+  · rename_i m hm
+    simp only [Except.ok.injEq] at h; subst h
+    have hl := C09.getNBest_length (firstPrefTotals p) (m + 1) (by omega) (by omega)
+    rw [hl]
+    refine ⟨by omega, fun _ => ?_⟩
+    have := getNBest_shape_of_keys (firstPrefTotals p) _ hk (nodup_allRanked p) (m + 1) (by omega) (by omega)
+    exact this
+
+theorem badd_ne_nil (acc : Profile) (b : Ballot) (x : Rat) : badd acc b x ≠ [] := by
+  cases acc with
+  | nil => simp [badd]
+  | cons a rest =>
+    obtain ⟨q, y⟩ := a
+    unfold badd
+    split <;> simp
+
+theorem subsetProfile_ne_nil {p : Profile} (S : List Cand) (h : p ≠ []) : subsetProfile p S ≠ [] := by
+  unfold subsetProfile
+  have key : ∀ (l : Profile) (acc : Profile), acc ≠ [] →
+      l.foldl (fun acc b => badd acc (subsetBallot S b.1) b.2) acc ≠ [] := by
+    intro l
+    induction l with
+    | nil => intro acc h; exact h
+    | cons b bs ih => intro acc _; rw [List.foldl_cons]; exact ih _ (badd_ne_nil _ _ _)
+  cases p with
+  | nil => exact absurd rfl h
+  | cons b bs => rw [List.foldl_cons]; exact key _ _ (badd_ne_nil _ _ _)
+
+theorem benhamCW_mem {p : Profile} {c : Cand} (h : benhamCW p = some c) : c ∈ allRankedCandidates p := by
+  unfold benhamCW at h
+  have : c ∈ condorcetWinner (rankedToCondorcet p) := by
+    cases hcw : condorcetWinner (rankedToCondorcet p) with
+    | nil => rw [hcw] at h; simp at h
+    | cons a t => rw [hcw] at h; simp only [List.head?_cons, Option.some.injEq] at h; subst h; simp
+  exact candidates_rankedToCondorcet_sub p (condorcetWinner_mem_candidates this)
+
+theorem benhamLoop_shape (votes : Profile) : ∀ (f : Nat) (cur : Profile) (r : List Slot),
+    (∀ c ∈ allRankedCandidates cur, c ∈ allRankedCandidates votes) → benhamLoop votes f cur = .ok r →
+    SelShape (allRankedCandidates votes) 1 r := by
+  intro f
+  induction f with
+  | zero => intro cur r _ h; simp [benhamLoop] at h
+  | succ f ih =>
+    intro cur r hsub h
+    unfold benhamLoop at h
+    split at h
+    · rename_i c hc
+      simp only [Except.ok.injEq] at h; subst h
+      exact selShape_map_cand (l := [c]) rfl (by simp)
+        (fun x hx => by simp only [List.mem_singleton] at hx; subst hx; exact hsub _ (benhamCW_mem hc))
+    · split at h
+      · simp at h
+      · rename_i remains hel
+        split at h
+        · rename_i hlen
+          simp only [Except.ok.injEq] at h; subst h
+          have := (eliminateOne_ok hel).2 (by omega)
+          rw [hlen] at this
+          exact this.mono hsub
+        · exact ih _ r (fun c hc => (allRanked_subsetProfile hc).2) h
+
+theorem benhamLoop_error (votes : Profile) : ∀ (f : Nat) (cur : Profile) (e : Err),
+    (allRankedCandidates cur).length < f → benhamLoop votes f cur = .error e → e = .other "IndexError" := by
+  intro f
+  induction f with
+  | zero => intro cur e hf; omega
+  | succ f ih =>
+    intro cur e hf h
+    unfold benhamLoop at h
+    split at h
+    · simp at h
+    · split at h
+      · rename_i e' hel
+        simp only [Except.error.injEq] at h; subst h
+        exact eliminateOne_error hel
+      · rename_i remains hel
+        split at h
+        · simp at h
+        · apply ih _ e _ h
+          have h1 := length_allRanked_subset_le votes (slotCands remains)
+          have h2 := length_slotCands_le remains
+          have h3 := (eliminateOne_ok hel).1
+          omega
+
+/-- **Benham fills the one seat** with a candidate of the profile or one reported tie of at least two of its
+    candidates, whenever it answers.  FULL statement (one seat is all the evaluator is anchored for). -/
+theorem benham_shape {p : Profile} (_h1 : 1 ≤ (allRankedCandidates p).length) {r : List Slot}
+    (h : benham p = .ok r) : SelShape (allRankedCandidates p) 1 r :=
+  benhamLoop_shape p _ p r (fun _ h => h) h
+
+/- Full statement (FALSE of the current code, `benham_refusals_witness`; open findings C05-benham-elimination-tie-crash,
+   C05-benham-single-candidate-crash):
+     theorem benham_refusals : 1 ≤ (allRankedCandidates p).length → benham p = .error e →
+       e = .votingSystemError ∨ e = .notImplemented -/
+
+/-- **Benham, refusals (partial).**  The evaluator declares no refusal; the one error value it produces is the
+    IndexError of `get_n_best` over an empty table, reached when an elimination tie (or a single candidate) leaves no
+    candidate.  The loop always ends within its bound (the candidate set shrinks every round). -/
+theorem benham_refusals_partial {p : Profile} {e : Err} (h : benham p = .error e) : e = .other "IndexError" :=
+  benhamLoop_error p _ p e (by omega) h
+
+theorem benham_refusals_witness :
+    1 ≤ (allRankedCandidates C05.exCycleProfile).length ∧
+      benham C05.exCycleProfile = .error (.other "IndexError") ∧
+    1 ≤ (allRankedCandidates [([.one 0], (5 : Rat))]).length ∧
+      benham [([.one 0], 5)] = .error (.other "IndexError") := by decide +kernel
+
+example : 1 ≤ (allRankedCandidates C05.exProfile).length ∧ benham C05.exProfile = .ok [Slot.cand 1] := by
+  decide +kernel
+example : benham [([.one 0, .one 1], 1), ([.one 1, .one 0], 1)] = .ok [Slot.tie [0, 1]] := by decide +kernel
+
+/-- **Tideman alternative fills the one seat with a candidate of the profile**, whenever it answers (never a tie:
+    a tied tier ends in KeyError, see `tideman_refusals_partial`).  FULL statement. -/
+theorem tideman_shape {smith : Bool} {p : Profile} (_h1 : 1 ≤ (allRankedCandidates p).length) {r : List Slot}
+    (h : tideman smith p = .ok r) : SelShape (allRankedCandidates p) 1 r := by
+  unfold tideman at h
+  split at h
+  · simp at h
+  · rename_i c _
+    split at h
+    · rename_i hc
+      simp only [Except.ok.injEq] at h; subst h
+      exact selShape_map_cand (l := [c]) rfl (by simp)
+        (fun x hx => by simp only [List.mem_singleton] at hx; subst hx; exact List.contains_iff_mem.1 hc)
+    · simp at h
+  · simp at h
+
+theorem tidemanTier_error (smith : Bool) : ∀ (f : Nat) (rv : Profile) (e : Err), rv ≠ [] →
+    (allRankedCandidates rv).length < f → tidemanTier smith f rv = .error e → e = .other "IndexError" := by
+  intro f
+  induction f with
+  | zero => intro rv e _ hf; omega
+  | succ f ih =>
+    intro rv e hne hf h
+    unfold tidemanTier at h
+    split at h
+    · rename_i hemp; exact absurd (List.isEmpty_iff.1 hemp) hne
+    · simp only at h
+      split at h
+      · simp at h
+      · split at h
+        · rename_i e' hel
+          simp only [Except.error.injEq] at h; subst h
+          exact eliminateOne_error hel
+        · simp at h
+        · rename_i rem _ hel
+          apply ih _ e (subsetProfile_ne_nil _ (subsetProfile_ne_nil _ hne)) _ h
+          have h1 := length_allRanked_subset_le
+            (subsetProfile rv (smithSchwartz (rankedToCondorcet rv) smith)) (slotCands rem)
+          have h2 := length_slotCands_le rem
+          have h3 := (eliminateOne_ok hel).1
+          have h4 := length_allRanked_subsetProfile_le rv (smithSchwartz (rankedToCondorcet rv) smith)
+          omega
+
+/- Full statement (FALSE of the current code, `tideman_refusals_witness`; open findings C05-tideman-elimination-tie-crash,
+   C05-tideman-tie-keyerror, C05-tideman-single-candidate-crash):
+     theorem tideman_refusals : 1 ≤ (allRankedCandidates p).length → tideman smith p = .error e →
+       e = .votingSystemError ∨ e = .notImplemented -/
+
+/-- **Tideman alternative, refusals (partial).**  With at least one candidate the declared NotImplementedError (no
+    votes) is never raised and the tier loop always ends within its bound; the error values that do occur are the
+    IndexError of `get_n_best` over an empty table (elimination tie, single candidate) and the KeyError of
+    `eligible_set.remove(Tie)` (tied last elimination). -/
+theorem tideman_refusals_partial {smith : Bool} {p : Profile} (h1 : 1 ≤ (allRankedCandidates p).length) {e : Err}
+    (h : tideman smith p = .error e) : e = .other "IndexError" ∨ e = .other "KeyError" := by
+  have hne : p ≠ [] := by
+    rintro rfl
+    rw [allRanked_nil] at h1
+    simp at h1
+  unfold tideman at h
+  split at h
+  · rename_i e' ht
+    simp only [Except.error.injEq] at h; subst h
+    exact Or.inl (tidemanTier_error smith _ p _ hne (by omega) ht)
+  · split at h
+    · simp at h
+    · simp only [Except.error.injEq] at h; exact Or.inr h.symm
+  · simp only [Except.error.injEq] at h; exact Or.inr h.symm
+
+/-- without any vote the declared refusal -/
+theorem tideman_no_votes (smith : Bool) : tideman smith [] = .error .notImplemented := by
+  cases smith <;> decide +kernel
+
+theorem tideman_refusals_witness :
+    1 ≤ (allRankedCandidates C05.exCycleProfile).length ∧
+      tideman true C05.exCycleProfile = .error (.other "IndexError") ∧
+      tideman false C05.exCycleProfile = .error (.other "IndexError") ∧
+    1 ≤ (allRankedCandidates [([.one 0, .one 1], (1 : Rat)), ([.one 1, .one 0], 1)]).length ∧
+      tideman true [([.one 0, .one 1], 1), ([.one 1, .one 0], 1)] = .error (.other "KeyError") ∧
+    1 ≤ (allRankedCandidates [([.one 0], (5 : Rat))]).length ∧
+      tideman true [([.one 0], 5)] = .error (.other "IndexError") := by decide +kernel
+
+example : 1 ≤ (allRankedCandidates C05.exProfile).length ∧ tideman true C05.exProfile = .ok [Slot.cand 1] ∧
+    tideman false C05.exProfile = .ok [Slot.cand 1] := by decide +kernel
 
 end VL.C08
